@@ -27,7 +27,9 @@ RET = {'false': False, 'none': None, 'zero': 0, 'empty': '', 'list': [],
        'true': True, 'one': 1, 'str': 'x', 'tuple': ('t', 'c')}
 CLASSES = (['allow', 'deny', 'unknown', 'emptyset', 'scope',
             # wrong scope AND a check that denies: still InvalidScope
-            'scope-deny', 'eo-scope-deny'] +
+            'scope-deny', 'eo-scope-deny',
+            # enforce_scope OFF: a scope mismatch is only a warning
+            'softscope', 'eo-softscope', 'softscope-deny'] +
            ['ret-' + k for k in RET] +
            # a check OBJECT needs no named rules: empty rule store
            ['eo-allow', 'eo-deny', 'eo-scope', 'eo-ret-str'] +
@@ -75,8 +77,8 @@ def plan(tier, seed):
 def expected_class(cls):
     if cls.startswith('eo-'):
         cls = cls[3:]
-    if cls in ('allow', 'pw-allow') or cls in ('ret-true', 'ret-one',
-                                               'ret-str', 'ret-tuple'):
+    if cls in ('allow', 'pw-allow', 'softscope') or cls in (
+            'ret-true', 'ret-one', 'ret-str', 'ret-tuple'):
         return 'allow'
     if cls in ('scope', 'scope-deny'):
         return 'scope'
@@ -115,9 +117,13 @@ def snapshot(x):
 
 def build(P, parse_rule, cls):
     w = world.FileWorld()
-    conf = world.new_conf(w.root, enforce_scope=True, policy_dirs=[])
+    conf = world.new_conf(w.root, enforce_scope='softscope' not in cls,
+                          policy_dirs=[])
     enf = P.Enforcer(conf)
     defaults = [P.RuleDefault('svc:allow', 'role:r'),
+                P.RuleDefault('svc:softscope', '@', scope_types=['system']),
+                P.RuleDefault('svc:softscope-deny', 'role:nope',
+                              scope_types=['system']),
                 P.RuleDefault('svc:pw-allow',
                               "'secret':%(password)s and "
                               "'tok':%(auth_token)s"),
@@ -148,11 +154,12 @@ def rule_for(P, parse_rule, cls, how):
     if cls in ('unknown', 'emptyset'):
         return None
     text = {'allow': 'role:r', 'deny': 'role:nope', 'scope': '@',
-            'scope-deny': 'role:nope',
+            'scope-deny': 'role:nope', 'softscope': '@',
+            'softscope-deny': 'role:nope',
             'pw-allow': "'secret':%(password)s and 'tok':%(auth_token)s"
             }.get(cls, 'vret:' + cls[4:])
     chk = parse_rule(text)
-    if cls in ('scope', 'scope-deny'):
+    if cls in ('scope', 'scope-deny', 'softscope', 'softscope-deny'):
         chk.scope_types = ['system']
     return chk
 
